@@ -102,6 +102,15 @@ def build():
         if k == 'raise_exc':
             raise EXC_CLASSES[f.get('exc', 'RuntimeError')]()
 
+    def out_of_place(f, where):
+        """A planned fault is of a kind that the step in which the stub finds itself cannot produce.  Plans arm every stub
+        with a kind that fits the phase it is WRITTEN in: this can only happen when the code under test runs an
+        instruction as part of another phase.  Not the harness' fault: recorded (the oracles report it), and the stub
+        fails the way that step can."""
+        sim = kernel.cur()
+        sim.counts['stub_out_of_place'] += 1
+        sim.ev('stub_out_of_place', id=f.get('id'), kind=f['kind'], where=where)
+
     def svh_result(f):
         if f is None:
             return svh.new_svh_success()
@@ -110,7 +119,8 @@ def build():
             return svh.new_svh_validation_error(msg())
         if f['kind'] == 'svh_hard':
             return svh.new_svh_hard_error(msg())
-        raise kernel.HarnessAbort('fault kind %s not applicable to a validation step' % f['kind'])
+        out_of_place(f, 'a validation step')
+        return svh.new_svh_hard_error(msg())
 
     def sh_result(f):
         if f is None:
@@ -118,7 +128,8 @@ def build():
         raise_common(f)
         if f['kind'] == 'sh_hard':
             return sh.new_sh_hard_error(msg())
-        raise kernel.HarnessAbort('fault kind %s not applicable to a main step' % f['kind'])
+        out_of_place(f, 'a main step')
+        return sh.new_sh_hard_error(msg())
 
     def pfh_result(f):
         if f is None:
@@ -128,7 +139,8 @@ def build():
             return pfh.new_pfh_fail(msg())
         if f['kind'] == 'pfh_hard':
             return pfh.new_pfh_hard_error(msg())
-        raise kernel.HarnessAbort('fault kind %s not applicable to assert main' % f['kind'])
+        out_of_place(f, 'assert main')
+        return pfh.new_pfh_hard_error(msg())
 
     def sym_result(f):
         if f is None:
@@ -136,7 +148,8 @@ def build():
         raise_common(f)
         if f['kind'] == 'undefined_symbol':
             return [SymbolReference('SIM_UNDEFINED_SYMBOL', reference_restrictions.is_any_type_w_str_rendering())]
-        raise kernel.HarnessAbort('fault kind %s not applicable to symbols' % f['kind'])
+        out_of_place(f, 'symbols')
+        return []
 
     def settings_view(env, settings=None):
         pes = env.proc_exe_settings
